@@ -425,3 +425,46 @@ def guarded_by(f, g, node, names):
         if edge_dominates(g, bid, True, tb) or edge_dominates(g, bid, False, tb):
             return True
     return False
+
+
+def history_rewrite_total(fb, f):
+    """loops of the large engine's step() that rewrite a history's record member by member (a loop over `completion` holding both
+    _history.insert and _history.erase): [(loop, witness)] where witness is a CFG path through one iteration that neither
+    inserts nor erases the member (None when every iteration decides)"""
+    from .. import cfg as cfgm
+    g = cfgm.CFG(f)
+    out = []
+    for lp in f.walk():
+        if lp['k'] not in ('CXXForRangeStmt', 'ForStmt', 'WhileStmt'):
+            continue
+        hdr = [c for c in lp['c'][:-1] if c is not None]
+        if not any(x['k'] == 'MemberExpr' and x.get('ref', {}).get('name') == 'completion' for h in hdr for x in sub(h)):
+            continue
+        body = lp['c'][-1]
+        if body is None:
+            continue
+        upd = [n for n in sub(body) if n['k'] == 'CXXMemberCallExpr' and n.get('callee', {}).get('q', '').split('::')[-1] in ('insert', 'erase') and n.get('c') and n['c'][0].get('c') and any(
+            x['k'] == 'MemberExpr' and x.get('ref', {}).get('name') == '_history' for x in sub(n['c'][0]['c'][0]))]
+        kinds = {n['callee']['q'].split('::')[-1] for n in upd}
+        if kinds != {'insert', 'erase'}:
+            continue
+        # start: the first CFG element of the body (for a range-for: the loop variable's declaration)
+        start = None
+        cand = ([lp['c'][6]] if lp['k'] == 'CXXForRangeStmt' and len(lp['c']) > 6 and lp['c'][6] is not None else []) + list(sub(body))
+        for x in cand:
+            if x.get('id') in g.pos:
+                start = g.pos[x['id']]
+                break
+        nxt = []
+        if lp['k'] == 'CXXForRangeStmt' and len(lp['c']) > 5 and lp['c'][5] is not None:
+            nxt = [x['id'] for x in sub(lp['c'][5]) if x['id'] in g.pos]
+        elif lp['k'] == 'ForStmt' and len(lp['c']) > 3 and lp['c'][3] is not None:
+            nxt = [x['id'] for x in sub(lp['c'][3]) if x['id'] in g.pos]
+        else:
+            nxt = [x['id'] for x in sub(lp['c'][0]) if x['id'] in g.pos]
+        if start is None or not nxt:
+            raise AnalysisBroken('%s: history rewrite loop at %s has no CFG anchor' % (f.q, locstr(lp)))
+        w = g.can_reach((start[0], start[1] - 1), nxt, avoid=[n['id'] for n in upd])
+        out.append((lp, w))
+    return out
+
